@@ -475,7 +475,9 @@ func runErrWrap() {
 				pos = "assign"
 			}
 			res.V, res.Sig, res.Detail = "viol", sigBase+c.valueClass()+":"+pos+":go-build-error", c.text()+": "+clip(x.Detail, 400)
-		case "timeout", "crash":
+		case "timeout":
+			fatal("errwrap: case %d (%s) timed out", i, c.text())
+		case "crash":
 			res.V, res.Sig, res.Detail = "viol", sigBase+x.Kind, c.text()+": "+x.Detail
 		default:
 			fatal("errwrap: case %d (%s) has no result: %s %s", i, c.text(), x.Kind, x.Detail)
